@@ -692,264 +692,17 @@ def _parse(path: str, src: str) -> ast.Module:
     key = (path, len(src), digest(src))
     t = _PARSE_CACHE.get(key)
     if t is None:
-        t = _Normalise().visit(ast.parse(src, filename=path))
+        from .normal import normalise_module
+
+        t = normalise_module(ast.parse(src, filename=path), path)
         _PARSE_CACHE[key] = t
     return t
 
 
 def normalise_pattern(tree: ast.Module) -> ast.Module:
-    """the normal form of function bodies, applied to a pattern (a module holding statements)"""
-    n = _Normalise()
-    n.depth = 1
-    tree = n.visit(tree)
-    n.depth = 1
-    tree.body = n._hoist(tree.body)
-    inline_single_use_temporaries(tree)
-    return tree
+    from .normal import normalise_pattern as _np
 
-
-def inline_single_use_temporaries(fn: ast.AST) -> None:
-    """In place: `x = e; return x` -> `return e` and `x = e; raise C(x)` -> `raise C(e)` when the name x is stored exactly
-    only by such assignments and loaded only by the statement that follows them (nested functions included).  Introducing or removing such a temporary
-    is the most common behaviour-preserving edit; both spellings get the same tree.  Also used on patterns."""
-    stores: dict[str, int] = {}
-    loads: dict[str, int] = {}
-    for n in ast.walk(fn):
-        if isinstance(n, ast.Name):
-            d = stores if isinstance(n.ctx, (ast.Store, ast.Del)) else loads
-            d[n.id] = d.get(n.id, 0) + 1
-        elif isinstance(n, ast.arg):
-            stores[n.arg] = stores.get(n.arg, 0) + 1
-        elif isinstance(n, (ast.Global, ast.Nonlocal)):
-            for x in n.names:
-                stores[x] = stores.get(x, 0) + 2
-
-    def pair(st, nxt):
-        """name of the temporary when (st, nxt) is `x = e; return x` or `x = e; raise C(x)`"""
-        if not (isinstance(st, ast.Assign) and len(st.targets) == 1 and isinstance(st.targets[0], ast.Name)) or nxt is None:
-            return None
-        x = st.targets[0].id
-        if isinstance(nxt, ast.Return) and isinstance(nxt.value, ast.Name) and nxt.value.id == x:
-            return x
-        if isinstance(nxt, ast.Raise) and isinstance(nxt.exc, ast.Call) and len(nxt.exc.args) == 1 and not nxt.exc.keywords and isinstance(nxt.exc.args[0], ast.Name) and nxt.exc.args[0].id == x:
-            return x
-        return None
-
-    blocks = []
-    for n in ast.walk(fn):
-        for field in ('body', 'orelse', 'finalbody'):
-            v = getattr(n, field, None)
-            if isinstance(v, list) and v and isinstance(v[0], ast.stmt):
-                blocks.append((n, field))
-    pairs: dict[str, int] = {}
-    for n, field in blocks:
-        v = getattr(n, field)
-        for a, b in zip(v, v[1:]):
-            x = pair(a, b)
-            if x:
-                pairs[x] = pairs.get(x, 0) + 1
-    # every write of x is such an assignment and every read is the return / raise that follows it
-    ok = {x for x, k in pairs.items() if stores.get(x) == k and loads.get(x) == k}
-
-    def block(stmts: list) -> list:
-        out = []
-        i = 0
-        while i < len(stmts):
-            st = stmts[i]
-            nxt = stmts[i + 1] if i + 1 < len(stmts) else None
-            x = pair(st, nxt)
-            if x in ok:
-                if isinstance(nxt, ast.Return):
-                    nxt.value = st.value
-                else:
-                    nxt.exc.args[0] = st.value
-                out.append(nxt)
-                i += 2
-                continue
-            out.append(st)
-            i += 1
-        return out
-
-    for n, field in blocks:
-        setattr(n, field, block(getattr(n, field)))
-
-
-class _Normalise(ast.NodeTransformer):
-    """Normal form of function bodies shared by all rules (positions are kept):
-
-    * an annotated assignment with a value inside a function is the plain assignment (annotations of locals and of
-      attributes are never evaluated by a function body, they are not behaviour);
-    * `logger.debug(...)` / `logger.info(...)` statements are dropped (tracing is not behaviour for any property here;
-      warnings and errors stay);
-    * `n = n + 1` (plain name, numeric constant) is `n += 1`;
-    * keywords naming the leading parameters of a callee of the same module / class are positional arguments;
-    * `if <negative test>: A else: B` is `if <positive test>: B else: A` (`not x`, `is not`, `!=`, `not in`; not for elif chains);
-    * an `else` after a branch that ends with return / raise / continue / break is hoisted behind the `if`;
-    * `x = e` immediately followed by `return x` or `raise C(x)`, x being written once and read once in the whole
-      function, is `return e` / `raise C(e)` (see inline_single_use_temporaries).
-    """
-
-    def __init__(self):
-        self.depth = 0
-        self.mod_funcs: dict[str, list[str] | None] = {}
-        self.cls_methods: list[dict[str, list[str] | None]] = []
-
-    @staticmethod
-    def _params(fn, drop_first: bool):
-        a = fn.args
-        if a.vararg or a.posonlyargs:
-            return None
-        names = [x.arg for x in a.args]
-        return names[1:] if drop_first else names
-
-    def visit_Module(self, node):
-        self.mod_funcs = {f.name: self._params(f, False) for f in node.body if isinstance(f, ast.FunctionDef)}
-        self.generic_visit(node)
-        return node
-
-    def visit_Call(self, node):
-        """keywords that name the leading parameters of a callee defined in the same module (plain name) or in the same
-        class (`self.m(...)`) are the positional arguments: `f(y=b, x=a)` and `f(a, y=b)` are `f(a, b)`"""
-        self.generic_visit(node)
-        if not node.keywords or any(isinstance(a, ast.Starred) for a in node.args) or any(k.arg is None for k in node.keywords):
-            return node
-        params = None
-        if isinstance(node.func, ast.Name):
-            params = self.mod_funcs.get(node.func.id)
-        elif isinstance(node.func, ast.Attribute) and isinstance(node.func.value, ast.Name) and node.func.value.id == 'self' and self.cls_methods:
-            params = self.cls_methods[-1].get(node.func.attr)
-        if not params:
-            return node
-        kw = {k.arg: k for k in node.keywords}
-        i = len(node.args)
-        moved = []
-        while i < len(params) and params[i] in kw:
-            moved.append(kw.pop(params[i]))
-            i += 1
-        if moved:
-            node.args = node.args + [k.value for k in moved]
-            node.keywords = [k for k in node.keywords if k.arg in kw]
-        return node
-
-    def _func(self, node):
-        self.depth += 1
-        self.generic_visit(node)
-        self.depth -= 1
-        inline_single_use_temporaries(node)
-        for field in ('body',):
-            if not getattr(node, field):
-                setattr(node, field, [ast.copy_location(ast.Pass(), node)])
-        return node
-
-    visit_FunctionDef = _func
-    visit_AsyncFunctionDef = _func
-
-    def visit_ClassDef(self, node):
-        m = {}
-        for f in node.body:
-            if isinstance(f, ast.FunctionDef):
-                static = any(isinstance(d, ast.Name) and d.id == 'staticmethod' for d in f.decorator_list)
-                prop = any((isinstance(d, ast.Name) and d.id == 'property') or isinstance(d, ast.Attribute) for d in f.decorator_list)
-                if not prop:
-                    m[f.name] = self._params(f, not static)
-        self.cls_methods.append(m)
-        saved, self.depth = self.depth, 0
-        self.generic_visit(node)
-        self.depth = saved
-        self.cls_methods.pop()
-        return node
-
-    def visit_AnnAssign(self, node):
-        self.generic_visit(node)
-        if self.depth and node.value is not None:
-            return ast.copy_location(ast.Assign(targets=[node.target], value=node.value, type_comment=None), node)
-        return node
-
-    def visit_Assign(self, node):
-        self.generic_visit(node)
-        # `n = n + 1` on a plain name and a numeric constant is `n += 1`
-        v = node.value
-        if (len(node.targets) == 1 and isinstance(node.targets[0], ast.Name) and isinstance(v, ast.BinOp) and isinstance(v.left, ast.Name) and v.left.id == node.targets[0].id
-                and isinstance(v.right, ast.Constant) and isinstance(v.right.value, (int, float)) and not isinstance(v.right.value, bool) and isinstance(v.op, (ast.Add, ast.Sub, ast.Mult))):
-            return ast.copy_location(ast.AugAssign(target=node.targets[0], op=v.op, value=v.right), node)
-        return node
-
-    def visit_Expr(self, node):
-        self.generic_visit(node)
-        v = node.value
-        if self.depth and isinstance(v, ast.Call) and isinstance(v.func, ast.Attribute) and v.func.attr in ('debug', 'info') and isinstance(v.func.value, ast.Name) and v.func.value.id in ('logger', 'logging'):
-            return None
-        return node
-
-    def visit_If(self, node):
-        self.generic_visit(node)
-        if not self.depth or not node.orelse:
-            return node
-        jump = (ast.Return, ast.Raise, ast.Continue, ast.Break)
-        if node.body and isinstance(node.body[-1], jump):
-            return node  # the else branch is hoisted behind the `if` by the enclosing block
-        if isinstance(node.orelse[-1], jump):
-            # `if c: A else: ...; raise` is `if not c: ...; raise` followed by A
-            node.test = _negate(node.test)
-            node.body, node.orelse = node.orelse, node.body
-            return node
-        # a negative test with an else branch is the positive test with the arms swapped
-        if not (len(node.orelse) == 1 and isinstance(node.orelse[0], ast.If)):
-            pos = _positive(node.test)
-            if pos is not None:
-                node.test = pos
-                node.body, node.orelse = node.orelse, node.body
-        return node
-
-    def _hoist(self, stmts: list) -> list:
-        """`if c: ...; return/raise/continue/break` followed by `else: rest` is the same `if` followed by rest"""
-        out = []
-        for st in stmts:
-            out.append(st)
-            if isinstance(st, ast.If) and st.orelse and st.body and isinstance(st.body[-1], (ast.Return, ast.Raise, ast.Continue, ast.Break)):
-                rest, st.orelse = st.orelse, []
-                out.extend(self._hoist(rest))
-        return out
-
-    def generic_visit(self, node):
-        super().generic_visit(node)
-        # a compound statement whose block lost all its statements keeps a `pass`
-        for field in ('body', 'orelse', 'finalbody'):
-            if field in ('body',) and isinstance(node, (ast.If, ast.For, ast.While, ast.With, ast.Try, ast.ExceptHandler)) and getattr(node, field, None) == []:
-                setattr(node, field, [ast.copy_location(ast.Pass(), node)])
-            v = getattr(node, field, None)
-            if self.depth and isinstance(v, list) and v and isinstance(v[0], ast.stmt):
-                setattr(node, field, self._hoist(v))
-        return node
-
-
-def _is_pattern_gap_only(stmts: list) -> bool:
-    """(patterns only) a branch that is just the `___` gap says nothing about its content"""
-    return len(stmts) == 1 and isinstance(stmts[0], ast.Expr) and isinstance(stmts[0].value, ast.Name) and stmts[0].value.id == '___'
-
-
-def _negate(test: ast.expr) -> ast.expr:
-    pos = _positive(test)
-    if pos is not None:
-        return pos
-    if isinstance(test, ast.Compare) and len(test.ops) == 1:
-        swap = {ast.Is: ast.IsNot, ast.Eq: ast.NotEq, ast.In: ast.NotIn}
-        for a, b in swap.items():
-            if isinstance(test.ops[0], a):
-                return ast.copy_location(ast.Compare(left=test.left, ops=[b()], comparators=test.comparators), test)
-    return ast.copy_location(ast.UnaryOp(op=ast.Not(), operand=test), test)
-
-
-def _positive(test: ast.expr):
-    """the positive form of a negative test (`not x`, `a is not b`, `a != b`, `a not in b`), or None"""
-    if isinstance(test, ast.UnaryOp) and isinstance(test.op, ast.Not):
-        return test.operand
-    if isinstance(test, ast.Compare) and len(test.ops) == 1:
-        swap = {ast.IsNot: ast.Is, ast.NotEq: ast.Eq, ast.NotIn: ast.In}
-        for neg, pos in swap.items():
-            if isinstance(test.ops[0], neg):
-                return ast.copy_location(ast.Compare(left=test.left, ops=[pos()], comparators=test.comparators), test)
-    return None
+    return _np(tree)
 
 
 def load_sources(repo: str = REPO) -> dict[str, str]:
